@@ -18,7 +18,7 @@ func init() {
 		Fn:          c16,
 		Level:       "exploration",
 		Builds:      []string{"default", "purego"},
-		Rule:        "histories over {Append, AppendMany (crossing LowCardinality key widths), Reset, Prepare, Infer, EncodeColumn, WriteColumn+Flush, EncodeRawBlock, Reset+Decode(valid data, incl. reference-encoded LowCardinality with forced key widths), Reset+Decode(truncated), DecodeBlock through bound Results (0 rows with columns, 1, 2, 5 rows; no explicit Reset)} on one column object, checked after every step against a list-of-values model: Rows(), Row(i) for all i, and the reference decode of every encoding. Random histories of length <= 40 for every catalogue column and boxed random compositions; exhaustive histories of length <= 4 (quick) / 5 (thorough) over a reduced alphabet for LowCardinality, Enum, String, Array, Map, Nullable, DateTime64. Non-trivial = >=2 encodes or a decode after use; distinct = (type, kind, history)",
+		Rule:        "histories over {Append, AppendMany (crossing LowCardinality key widths), Reset, Prepare, Infer, EncodeColumn, WriteColumn+Flush, EncodeRawBlock, Reset+Decode(valid data, incl. reference-encoded LowCardinality with forced key widths), Reset+Decode(truncated), DecodeBlock through bound Results (0 rows with columns, 1, 2, 5 rows; no explicit Reset), SetInPlace (rows rewritten through exported column memory)} on one column object, checked after every step against a list-of-values model: Rows(), Row(i) for all i, and the reference decode of every encoding. Random histories of length <= 40 for every catalogue column and boxed random compositions; exhaustive histories of length <= 4 (quick) / 5 (thorough) over a reduced alphabet for LowCardinality, Enum, String, Array, Map, Nullable, DateTime64. Non-trivial = >=2 encodes or a decode after use; distinct = (type, kind, history)",
 		Assumptions: []string{"contract: no decode into a non-empty column (Reset precedes every decode); after a failed decode the next operation is Reset; Preparable columns are prepared before encoding"},
 		MinDistinct: 500,
 	}
@@ -37,10 +37,11 @@ const (
 	opDecodeTrunc
 	opAppendSeen
 	opDecodeBlock
+	opSetInPlace
 	nOps16 = opDecodeTrunc + 1
 )
 
-var opNames = []string{"Append", "AppendMany", "Reset", "Prepare", "Infer", "EncodeColumn", "WriteColumn", "EncodeRawBlock", "Reset+Decode", "Reset+DecodeTruncated", "AppendSeen", "DecodeBlock"}
+var opNames = []string{"Append", "AppendMany", "Reset", "Prepare", "Infer", "EncodeColumn", "WriteColumn", "EncodeRawBlock", "Reset+Decode", "Reset+DecodeTruncated", "AppendSeen", "DecodeBlock", "SetInPlace"}
 
 type c16State struct {
 	r      *core.Run
@@ -255,6 +256,22 @@ func (s *c16State) apply(op int) {
 			if len(s.hist) > 1 {
 				s.decAft = true
 			}
+		case opSetInPlace:
+			// rows rewritten through the column's exported memory (no Reset, same row count)
+			st, can := s.col.(val.Setter)
+			if !can || len(s.model) == 0 {
+				s.hist[len(s.hist)-1] += "(skipped)"
+				return
+			}
+			for k := 0; k < 1+s.rng.Intn(3); k++ {
+				i := s.rng.Intn(len(s.model))
+				v := val.GenColumn(s.rng, s.t, 1, val.GenOpt{MaxElem: 3})[0]
+				if !st.Set(i, v) {
+					s.hist[len(s.hist)-1] += "(skipped)"
+					return
+				}
+				s.model[i] = v
+			}
 		case opDecodeBlock:
 			// a whole result block bound to the column through Results: the library resets the
 			// target itself, also for a block that has columns but no rows
@@ -348,9 +365,11 @@ func c16Run(r *core.Run, idx int64, ts string, mk func() (val.LibCol, error), op
 	} else {
 		many := 0
 		for i := 0; i < random && !s.bad; i++ {
-			op := s.rng.Intn(nOps16 + 1)
+			op := s.rng.Intn(nOps16 + 2)
 			if op == nOps16 {
 				op = opDecodeBlock
+			} else if op == nOps16+1 {
+				op = opSetInPlace
 			}
 			if s.dirty {
 				op = opReset
@@ -414,7 +433,7 @@ func c16(r *core.Run) {
 		c16EnumReinfer(r, ci)
 	}
 	// exhaustive short histories over a reduced alphabet for the stateful column kinds
-	alpha := []int{opAppend, opAppendSeen, opEncode, opReset, opDecode, opDecodeBlock, opAppendMany}
+	alpha := []int{opAppend, opAppendSeen, opEncode, opReset, opDecode, opDecodeBlock, opSetInPlace, opAppendMany}
 	L := r.Pick(4, 5)
 	types := []string{"LowCardinality(String)", "Array(LowCardinality(String))", "Enum8('hello' = 1, 'world' = 2, 'x y' = -5)", "String", "Array(String)", "Map(String, String)", "Nullable(String)", "DateTime64(3)", "Map(LowCardinality(String), Array(String))"}
 	for _, ts := range types {
